@@ -113,6 +113,7 @@ class Ctx:
                   min_nontrivial=1):
         """Run one space of a C explorer on all shards.  Returns the aggregated record."""
         shards = shards or NCPU
+        stall_s = max(stall_s, int(cpu_limit * 1.5) + 60)     # a case may legitimately use its whole CPU allowance
         if time.time() > self.deadline:
             self.exhaustive = False
             self.spaces.append({"space": space, "skipped": "deadline"})
